@@ -345,7 +345,7 @@ pub fn emit_corpus(target: &str, dir: &std::path::Path) -> std::io::Result<usize
         "c04_edits" => {
             put("basic".into(), vec![0, 10, 0, 128, 5, 0x10, 10, 10, 0, 14, 3, 0x20, 18, 0, 0, 20, 0, 0, 0, 207, 1, 0, 250, 0, 255, 255, 255, 255, 255, 255, 255, 255, 20, 0, 0])?;
             for i in 0..32u8 {
-                put(format!("h{}", i), (0..30).map(|k| i.wrapping_mul(31).wrapping_add(k * 17)).collect())?;
+                put(format!("h{}", i), (0..30).map(|k| i.wrapping_mul(31).wrapping_add((k as u8).wrapping_mul(17))).collect())?;
             }
         }
         "c12_perturb" => {
